@@ -170,37 +170,22 @@ def run_adapter(case):
             if np.max(np.abs(rise - s_lv ** 2)) > 0.08 * s_lv ** 2:
                 raise Violation("adapter-contour", f"{tag}: {s_lv}-sigma contour points have profile rise {rise.min():.4g}..{rise.max():.4g}, expected {s_lv ** 2}")
             labels.add("contour")
-    # one more parameter is fixed where it is *after* the minimisation, and the matrices are asked for without minimising again: they describe the remaining free
-    # parameters at the current point (conditional covariance = 2*errordef*(H over the remaining free parameters)^-1); releasing it brings the full matrix back
+    # one more parameter is fixed where it is *after* the minimisation and the covariance matrix is asked for without minimising again.  What that matrix should be
+    # is NOT part of the property ("after a fit ..."): on the unchanged tree MINUIT's HESSE can fail in that state and the adapter then hands on a matrix that
+    # contradicts its own parameter_errors (seed sweep: cov 2.0, errors 0.577, conditional value 0.333), the scipy adapter returns None.  A facet that compared
+    # the values (it caught seeded change C07-d) was therefore withdrawn as over-reach; what remains is what the property does say: rows and columns of fixed
+    # parameters are exactly zero in whatever matrix is reported.
     if len(f) >= 2:
         with guard("fix-after-minimize"):
             m.fix(names[f[-1]])
-            C2, H2 = m.cov_mat, m.hessian
-        if C2 is None or H2 is None:
-            # this backend offers no matrices until the next minimisation: nothing is claimed, so nothing can be wrong
-            labels.add("no_matrices_after_fix_without_minimize")
-            return {"nontrivial": True, "labels": sorted(labels)}
-        C2, H2 = np.asarray(C2, float), np.asarray(H2, float)
-        f2 = f[:-1]
-        s2 = np.ix_(f2, f2)
-        want2 = np.linalg.inv(A[s2]) * (ed / scale)
-        sc2 = np.sqrt(np.outer(np.diag(want2), np.diag(want2)))
-        Fx = F + [f[-1]]
-        if np.any(C2[Fx, :] != 0) or np.any(C2[:, Fx] != 0):
-            raise Violation(f"adapter-cov-fixed-rows-after-fix[{case['backend']}]", f"{tag}: after fixing p{f[-1]} too: cov_mat {C2.tolist()}: rows/columns of fixed parameters must be zero")
-        if np.any(np.abs(C2[s2] - want2) > 0.01 * sc2):
-            raise Violation(f"adapter-cov-after-fix[{case['backend']}]", f"{tag}: after fixing p{f[-1]} at its optimum (no new minimisation): cov_mat {C2.tolist()}, 2*errordef*H^-1 over the "
-                            f"remaining free parameters {want2.tolist()}")
-        hs2 = np.sqrt(np.outer(np.diag(Hw)[f2], np.diag(Hw)[f2]))
-        if np.any(np.abs(H2[s2] - Hw[s2]) > 0.02 * hs2):
-            raise Violation(f"adapter-hessian-after-fix[{case['backend']}]", f"{tag}: hessian {H2.tolist()} vs second derivatives {Hw[s2].tolist()} on the remaining free block")
+            C2 = m.cov_mat
+        if C2 is not None:
+            C2 = np.asarray(C2, float)
+            Fx = F + [f[-1]]
+            if np.any(C2[Fx, :] != 0) or np.any(C2[:, Fx] != 0):
+                raise Violation(f"adapter-cov-fixed-rows-after-fix[{case['backend']}]", f"{tag}: after fixing p{f[-1]} too: cov_mat {C2.tolist()}: rows/columns of fixed parameters must be zero")
         with guard("release-after-fix"):
             m.release(names[f[-1]])
-            C3 = m.cov_mat
-        if C3 is None:
-            labels.add("no_matrices_after_release_without_minimize")
-        elif np.any(np.abs(np.asarray(C3, float)[sub] - Cwant[sub]) > 0.01 * sc[sub]):
-            raise Violation(f"adapter-cov-after-release[{case['backend']}]", f"{tag}: after releasing p{f[-1]} again: cov_mat {C3.tolist()} vs {Cwant.tolist()}")
         labels.add("fixed_after_minimize")
     nontrivial = bool(F) or ed != 1.0 or np.max(np.abs(np.array(case["R"]) - np.eye(n))) > 0.3
     if F:
